@@ -33,7 +33,13 @@ TIES = {
         "gen_module": "ProcSim.Gen.RegAccess",
         "theorems": ["gen_can_access", "gen_dequeue", "gen_append", "gen_create", "gen_build_eq", "gen_run_eq",
                      "C19_gen_served_iff", "C19_gen_dequeue_total"],
-    }
+    },
+    "sim_utils": {
+        "gen": "ProcSim/Gen/SimUtils.lean",
+        "proofs": "ProcSim/Props/SimUtilsGen.lean",
+        "gen_module": "ProcSim.Gen.SimUtils",
+        "theorems": ["gen_unit_full", "gen_mem_unavail", "fillLoop_cons_gen", "tryPorts_cons_gen"],
+    },
 }
 
 
